@@ -129,6 +129,13 @@ func C16_LockedPasswordOracle() {
 	verif.ReplayInInterpreter()
 	api := verif.Choice("api", 2) == 1
 	t := newTwin(oracleOpts(), api)
+	if verif.Choice("lock-config", 2) == 1 {
+		// a lock that is shorter than the counting window (the defaults are 12 h inside 5 min)
+		for _, f := range t.f {
+			f.w.AB.Config.Modules.LockDuration = 10 * time.Minute
+			f.w.AB.Config.Modules.LockWindow = time.Hour
+		}
+	}
 	a := oracleAccount(t.f[0])
 	good := &world.Values{PID: a.pid, Password: verif.String("goodpw", 3), Remember: verif.Bool("rm")}
 	bad := &world.Values{PID: a.pid, Password: verif.String("badpw", 3), Remember: good.Remember}
